@@ -131,6 +131,17 @@ CHECKS = {
         note="S.C = I itself is the contract of numpy.linalg.inv (stubbed); ordering for general positive-definite tensors is not "
              "decided by nlsat and not claimed; unit factors read as symbols when within 1e-8 of CODATA.",
         design="3/C07"),
+    "C15": dict(
+        engine="symnum+z3",
+        technique="symbolic execution of the real ResultsWriter / write_table / write_output on symbolic interface objects with recording "
+                  "sinks; z3 equality of every recorded payload and axis with the in-memory quantity times the documented unit factor",
+        text="Partial (wiring): for every keyword and alias of the registry loaded from the working tree's YAML and both bases, the table "
+             "handed to the qha writer is, for all values of the symbolic results, the in-memory quantity (adiabatic vs isothermal tensor, "
+             "averages, velocities, V, P) times the documented unit factor, under the documented file name, with T / P(GPa) / V(A^3) axes; "
+             "aliases identical; fname/unit overrides honoured; write_output dispatches per base.",
+        note="The textual table (labels as printed, the four dropped guard temperatures, precision) is produced by qha/pandas and is "
+             "outside the solver claim; the concrete replay re-reads real files only to confirm a counterexample.",
+        design="3/C15"),
 }
 
 NOT_APPLICABLE = {
